@@ -11,6 +11,8 @@ import (
 	"fmt"
 	"os"
 	"strconv"
+	"sync"
+	"time"
 )
 
 type input struct {
@@ -213,3 +215,40 @@ func Stop() { panic(StopReplay{}) }
 // Memo returns f(): under the engine the result of a CONCRETE, deterministic prefix is
 // computed once per worker and reused on the following paths (key identifies it).
 func Memo(key string, f func() string) string { return f() }
+
+// LocksHeld returns the number of mutexes currently locked (engine only; 0 natively).
+func LocksHeld() int { return 0 }
+
+var joinWG sync.WaitGroup
+
+// DeadlockDetected is the panic value of Join when the goroutines do not finish natively.
+type DeadlockDetected struct{}
+
+// Go starts f in a goroutine that Join waits for.
+func Go(f func()) {
+	joinWG.Add(1)
+	go func() {
+		defer joinWG.Done()
+		f()
+	}()
+}
+
+// Join waits until every goroutine started with Go has finished.  Under the engine a
+// goroutine that can never finish makes the join block forever, which the engine
+// reports as a deadlock; natively a watchdog reports it after a few seconds.
+func Join() {
+	if Symbolic() {
+		joinWG.Wait()
+		return
+	}
+	done := make(chan struct{})
+	go func() { joinWG.Wait(); close(done) }()
+	select {
+	case <-done:
+	case <-time.After(nativeJoinTimeout):
+		failures = append(failures, "deadlock")
+		panic(StopReplay{ID: "deadlock"})
+	}
+}
+
+var nativeJoinTimeout = 5 * time.Second
